@@ -695,7 +695,10 @@ func New() Beacon {
 func (b *beacon) GetAll() map[string]treasure.Treasure {
 	b.mu.RLock()
 	defer b.mu.RUnlock()
-	return b.treasuresByKeys
+	// Hand out a copy: callers iterate the result after this method has released the lock,
+	// and iterating the internal map while a writer adds or deletes a key is a data race
+	// (the Go runtime aborts the process on a concurrent map iteration and map write).
+	return maps.Clone(b.treasuresByKeys)
 }
 
 type IterationType int
